@@ -424,7 +424,10 @@ def check_group(out, ops, meta, io, mo):
                 return "not compared"
             if i_ in extra_dumps_ and isinstance(x_, dict) and isinstance(x_.get("ok"), dict):
                 # results of merging merge results: the order of the children lists follows the registry order of the inputs
-                return {"ok": {n_: dict(r_, children=sorted(r_.get("children") or [])) for n_, r_ in x_["ok"].items()}}
+                # ... and so does which of two identical declarations on one chain counts as the own one: compared is what the
+                # property (and SameHier) speaks about - supertype, children, effective features
+                return {"ok": {n_: {"super": r_.get("super"), "children": sorted(r_.get("children") or []),
+                                    "eff": sorted(r_.get("eff") or [], key=str)} for n_, r_ in x_["ok"].items()}}
             return x_
         d = sessions.first_diff(io, mo, canon_)
         if d is not None:
